@@ -189,6 +189,34 @@ def oracle_one_negative_box(rng):
     return None
 
 
+def oracle_full_covers_box(rng):
+    """the cover reduction for conditional AGE cones is a documented heuristic; once the user switches it off through the public setter
+    (coniclifts.heuristic_reduce_cond_age_cones(False)) a one-negative-term signomial over a box is X-SAGE iff it is nonnegative on the box:
+    f_c = exp(x0) + 1 - c exp(x1) on [0, 1]^2 has minimum 2 - c e"""
+    import sageopt.coniclifts as cl
+    from sageopt import SigDomain
+    from sageopt.relaxations import sage_sigs as ss
+    from sageopt.coniclifts.constraints.set_membership import sage_cones as sc_
+    old = sc_.SETTINGS['heuristic_reduction']
+    try:
+        with warnings.catch_warnings():
+            warnings.simplefilter('ignore')
+            cl.heuristic_reduce_cond_age_cones(False)
+            x = cl.Variable(shape=(2,), name='fcb_x')
+            X = SigDomain(2, coniclifts_cons=[x >= np.zeros(2), x <= np.ones(2)])
+            for c in (0.3, 0.6, 0.7, 0.8, 1.0):
+                f = sig([([Fraction(1), Fraction(0)], Fraction(1)), ([Fraction(0), Fraction(0)], Fraction(1)), ([Fraction(0), Fraction(1)], Fraction(-c))], 2)
+                true_min = 2 - c * math.e
+                st, val = ss.sage_feasibility(f, X).solve(verbose=False)
+                certified = st == 'solved' and val > -np.inf
+                if abs(true_min) > 1e-3 and certified != (true_min > 0):
+                    return ('after coniclifts.heuristic_reduce_cond_age_cones(False), sage_feasibility of exp(x0) + 1 - %g exp(x1) over [0,1]^2 (minimum %g) '
+                            'reports (%s, %r)' % (c, true_min, st, val))
+    finally:
+        cl.heuristic_reduce_cond_age_cones(old)
+    return None
+
+
 def oracle_conditional(rng):
     """at most one negative coefficient over a conic X (incl. equality blocks followed by other cones, a box in the negative
     orthant): both forms are lower bounds on sampled points of X, primal <= dual, and the optimisation-based cover presolve
@@ -427,7 +455,7 @@ def covers_suite(ctx):
 
 def run(ctx):
     covers_suite(ctx)
-    for name, f, reps in (('directed', oracle_directed, 1), ('circuit', oracle_circuit, ctx.n(4, 30)), ('one_negative_box', oracle_one_negative_box, ctx.n(6, 60)),
+    for name, f, reps in (('directed', oracle_directed, 1), ('full_covers_box', oracle_full_covers_box, 1), ('circuit', oracle_circuit, ctx.n(4, 30)), ('one_negative_box', oracle_one_negative_box, ctx.n(6, 60)),
                           ('conditional', oracle_conditional, ctx.n(40, 300))):
         for _ in range(reps):
             why = f(ctx.rng)
